@@ -76,7 +76,7 @@ theorem insG_rel (R : α → β → Prop) (k : String) (a : α) (b : β) (hab : 
     by_cases h1 : k < n
     · simp [h1, All2, hab, h.1, h.2]
     · by_cases h2 : k = n
-      · simp [h1, h2, All2, h.1, h.2]
+      · simp [h2, All2, h.1, h.2]
       · simp [h1, h2, All2, h.1, ih.1, ih.2]
 
 theorem sortG_rel (R : α → β → Prop) : ∀ (ks : List String) (as : List α) (bs : List β), All2 R as bs →
@@ -267,7 +267,7 @@ theorem lookF_insG_other (k k' : String) (a : α) (hk : k' ≠ k) : ∀ (ns : Li
     by_cases h1 : k < n
     · simp [h1, lookF, Ne.symm hk]
     · by_cases h2 : k = n
-      · simp [h1, h2]
+      · simp [h2]
       · simp [h1, h2, lookF, lookF_insG_other k k' a hk ns us (by simpa using h)]
 
 /-- every member of the input is found in the output under its key -/
@@ -309,7 +309,7 @@ theorem insG_map_rel {γ : Type} (f : String → γ) (g : α → γ) (k : String
     by_cases h1 : k < n
     · simp [h1, hka, h.1, h.2]
     · by_cases h2 : k = n
-      · simp [h1, h2, h.1, h.2]
+      · simp [h2, h.1, h.2]
       · simp [h1, h2, h.1, insG_map_rel f g k a hka ns us h.2]
 
 theorem lookupLast_cons_ne {n k : String} {a : Value} (ks : List String) (as : List Value) (h : n ≠ k) :
